@@ -9,6 +9,7 @@
 //!   o new ok|err                     o words <total> <kind:hex> ...     o counts <target>:<n> ... none:<n> drawbad:<n>
 //!   o fromstr ok|err|panic           o raw <f64 bits>
 //!   o fwnew ok|err|panic|hang        o ret <f64 bits>
+//!   o run ok|panic|hang (if fwnew ok)
 //!   end                              end                                end
 
 use crate::genm::machine_bytes;
@@ -291,17 +292,63 @@ fn emit_c12(w: &mut dyn Write, id: &str, label: &str, m: &Machine, crafted: Opti
     let r = with_watchdog(5000, move || {
         Framework::new(vec![mc], fp, fb, VInstant(0), ScriptRng::new(7, 0)).map(|_| ())
     });
-    let _ = writeln!(
-        w,
-        "o fwnew {}",
-        match r {
-            Outcome::Done(Ok(())) => "ok",
-            Outcome::Done(Err(_)) => "err",
-            Outcome::Panic => "panic",
-            Outcome::Hang => "hang",
-        }
-    );
+    let fwnew = match r {
+        Outcome::Done(Ok(())) => "ok",
+        Outcome::Done(Err(_)) => "err",
+        Outcome::Panic => "panic",
+        Outcome::Hang => "hang",
+    };
+    let _ = writeln!(w, "o fwnew {}", fwnew);
+    // "a machine obtained from any of them can always be run": drive every framework the
+    // implementation agreed to build through a short scripted history (every event kind, for the
+    // machine itself and for an unknown id, three fair random streams) and report how it went
+    if fwnew == "ok" {
+        let mc = m.clone();
+        let r = with_watchdog(8000, move || run_accepted(mc, fp, fb));
+        let _ = writeln!(
+            w,
+            "o run {}",
+            match r {
+                Outcome::Done(()) => "ok",
+                Outcome::Panic => "panic",
+                Outcome::Hang => "hang",
+            }
+        );
+    }
     let _ = writeln!(w, "end");
+}
+
+fn run_accepted(m: Machine, fp: f64, fb: f64) {
+    use maybenot::{MachineId, TriggerEvent};
+    for seed in [11u64, 12, 13] {
+        let Ok(mut f) = Framework::new(vec![m.clone(), m.clone()], fp, fb, VInstant(0), ScriptRng::new(seed, 0)) else {
+            return;
+        };
+        let mut t: i128 = 0;
+        for round in 0..24u64 {
+            for id in [0usize, 1, 7] {
+                let mid = MachineId::from_raw(id);
+                let evs = [
+                    TriggerEvent::NormalRecv,
+                    TriggerEvent::PaddingRecv,
+                    TriggerEvent::TunnelRecv,
+                    TriggerEvent::NormalSent,
+                    TriggerEvent::PaddingSent { machine: mid },
+                    TriggerEvent::TunnelSent,
+                    TriggerEvent::BlockingBegin { machine: mid },
+                    TriggerEvent::BlockingEnd,
+                    TriggerEvent::TimerBegin { machine: mid },
+                    TriggerEvent::TimerEnd { machine: mid },
+                ];
+                for (k, e) in evs.iter().enumerate() {
+                    t += 1000 * ((round + k as u64) % 5) as i128;
+                    for _ in f.trigger_events(std::slice::from_ref(e), VInstant(t)) {}
+                }
+                // and one batch
+                for _ in f.trigger_events(&evs, VInstant(t)) {}
+            }
+        }
+    }
 }
 
 fn emit_spec(w: &mut dyn Write, id: &str, label: &str, s: &MSpec) {
